@@ -27,9 +27,13 @@ def main():
         orig = path.read_text()
         lines = orig.split("\n")
         ln = d["line"] - 1
-        if lines[ln].strip() != d["before"]:
-            print("SKIP (source moved)", d["target"], d["line"])
-            continue
+        if ln >= len(lines) or lines[ln].strip() != d["before"]:
+            # the repository moved on since the mutant was made (fix commits): find the same line nearby
+            cand = [k for k in range(max(0, ln - 25), min(len(lines), ln + 26)) if lines[k].strip() == d["before"]]
+            if len(cand) != 1:
+                print("SKIP (source moved)", d["target"], d["line"])
+                continue
+            ln = cand[0]
         ind = lines[ln][: len(lines[ln]) - len(lines[ln].lstrip())]
         lines[ln] = ind + d["after"]
         path.write_text("\n".join(lines))
